@@ -685,8 +685,13 @@ def run_case(ctx, case):
                 H(new)
                 pre = R.snap()
                 R.advance_wall_clock()
+                dest = R.odb
+                if R.ro:  # a transfer needs a writable handle on the directory
+                    R.ro = False
+                    dest = R.mk_odb()
+                    R.ro = True
                 try:
-                    res = transfer(staging, R.odb, {sobj.hash_info}, verify=verify, hardlink=hardlink)
+                    res = transfer(staging, dest, {sobj.hash_info}, verify=verify, hardlink=hardlink)
                     tr, fl = sorted(h.value for h in res.transferred), sorted(h.value for h in res.failed)
                     code = 0
                 except Exception as exc:  # noqa: BLE001
@@ -894,6 +899,8 @@ def product_cases(full=True):
             for hardlink in (False, True):
                 for verify in ((True, False) if (full or change in ("none", "append")) else (True,)):
                     for prior in (("absent", "intact", "tampered") if full else ("absent", "tampered")):
+                        if not full and prior == "tampered" and (change not in ("none", "append") or not verify):
+                            continue
                         for st_on in ((True, False) if full else (True,)):
                             ops = [["add", None, [[B, 1]]]]
                             if prior != "absent":
@@ -937,7 +944,7 @@ def product_cases(full=True):
     # with the same odb object and with a re-created one; file targets and directory targets
     DIR = [["t", T], ["b", B]]
     for cls in ("local", "base"):
-        for pattern, mode in changes:
+        for pattern, mode in (changes if full else [c for c in changes if c[0] in ("append", "rewrite", "replace", "none", "chmod")]):
             for entry in (("noop", "wiped", "warm", "stale") if full else ("noop", "stale")):
                 for target in ("file", "filest", "dir"):
                     for reopen in (False, True):
@@ -1069,7 +1076,7 @@ def load_corpus():
 
 def run(ctx):
     cases = load_corpus() + product_cases(full=ctx.tier != "quick" or bool(ctx.changed_anchors))
-    for _ in range(ctx.n(120, 2000)):
+    for _ in range(ctx.n(90, 2000)):
         cases.append(random_case(ctx.rng))
     items = []
     seen_tags = set()
